@@ -196,7 +196,7 @@ class PrintMonitor(Monitor):
         text2 = str(P2)
         if text2 != text:
             ctx.violation(
-                {"prop": "C17", "monitor": "roundtrip", "kind": "prints_differently", "op": step["op"]},
+                {"prop": "C17", "monitor": "roundtrip", "kind": "prints_differently", "op": step["op"], "diag": diff_diag(text, text2)},
                 mk_case(sess, sess.steps, "roundtrip", None, {"printed": text[:3000], "reprinted": text2[:3000]}),
             )
             return
@@ -245,6 +245,14 @@ def knobs(rng):
         p_alloc=rng.choice([0.4, 0.6]),
         max_stmts=rng.choice([6, 10]),
     )
+
+
+def diff_diag(text, text2):
+    """mechanism of a printed-form difference"""
+    import re
+
+    nz = lambda t: re.sub(r"(?<![\w.)\]])-0(?![\w.])", "0", t)
+    return {"only_negated_integer_zero": text != text2 and nz(text) == nz(text2)}
 
 
 def plan(tier, seed):
